@@ -1723,6 +1723,9 @@ class SequenceOfAndSetOfBase(base.ConstructedAsn1Type):
             yield self.getComponentByPosition(idx)
 
     def _cloneComponentValues(self, myClone, cloneValueFlag):
+        if self._componentValues is noValue:
+            return
+
         for idx, componentValue in self._componentValues.items():
             if componentValue is not noValue:
                 if isinstance(componentValue, base.ConstructedAsn1Type):
